@@ -3,7 +3,7 @@ the real library and project the observation into the specification's vocabulary
 Deliberately dumb: attribute reads and constructor calls only."""
 from __future__ import annotations
 
-from .core import outcome, octs, after_pack
+from .core import outcome, octs, after_pack, decoded
 from .probe import decode_other, poison, twin
 
 
@@ -168,7 +168,7 @@ def op_sph_unpack(a):
     from spacepackets.ccsds.spacepacket import SpacePacketHeader
 
     def run():
-        o = SpacePacketHeader.unpack(bytes(a["octets"]))
+        o = decoded(lambda: SpacePacketHeader.unpack(bytes(a["octets"])))
         return {"h": _hdr_proj(o), "plen": o.packet_len, "repack": octs(o.pack()),
                 "pid": o.packet_id.raw(), "psc": o.packet_seq_control.raw()}
     return outcome(run)
@@ -246,7 +246,7 @@ def op_tc_unpack(a):
     from spacepackets.ecss.tc import PusTc
 
     def run():
-        dec = PusTc.unpack(bytes(a["octets"]))
+        dec = decoded(lambda: PusTc.unpack(bytes(a["octets"])))
         keep = octs(dec.pack(recalc_crc=False))
         return {"v": tc_proj(dec), "plen": dec.packet_len, "keep": keep, "repack": octs(dec.pack())}
     return outcome(run)
@@ -310,7 +310,7 @@ def op_tm_unpack(a):
 
     def run():
         cls = Service17Tm if a.get("via") == "srv17" else PusTm
-        dec = cls.unpack(bytes(a["octets"]), a["tslen"])
+        dec = decoded(lambda: cls.unpack(bytes(a["octets"]), a["tslen"]))
         keep = octs(_inner_tm(dec).pack(recalc_crc=False))
         return {"v": tm_proj(_inner_tm(dec)), "plen": _inner_tm(dec).packet_len, "keep": keep, "repack": octs(dec.pack())}
     return outcome(run)
